@@ -85,7 +85,8 @@ def _mk(n):
     return Contract("C06.AlphabetEncoding._initialize[%d symbolic symbols]" % n, target=lambda: _A()._initialize, setup=_setup(n), requires=_req,
                     ensures=_ens_init, concretize=_concretize,
                     canaries=[("no lower-case entries", "self._lookup[lower_alphabet] = np.arange(len(alphabet))", "self._lookup[self._alphabet] = np.arange(len(alphabet))"),
-                              ("xor instead of +32", "(self._alphabet + ord(\"a\")-ord(\"A\"))", "(self._alphabet + ord(\"a\")-ord(\"B\"))")])
+                              ("lower case 31 above", "self._alphabet + ord(\"a\")-ord(\"A\"), self._alphabet)", "self._alphabet + ord(\"a\")-ord(\"B\"), self._alphabet)"),
+                              ("+32 for every symbol (the repaired defect)", "lower_alphabet = np.where(is_letter, self._alphabet + ord(\"a\")-ord(\"A\"), self._alphabet)", "lower_alphabet = (self._alphabet + ord(\"a\")-ord(\"A\"))")])
 
 
 init1, init2, init4 = _mk(1), _mk(2), _mk(4)
